@@ -151,7 +151,8 @@ fn render_y(ag: &AG, kind: &str, settings: &serde_json::Map<String, Value>) -> S
                         Sym::R(_) => s.push_str(&format!(" s.push_str(&${n}); s.push(',');")),
                     }
                 }
-                s.push_str(" s.push(']');");
+                // (a second `$$`, this one after all the other `$` references of the action)
+                s.push_str(" s.push_str(\"]$$\");");
                 if param == "log" {
                     s.push_str(if ch_layout(pidx) { "\n      log.borrow_mut().push(s.clone());" } else { " log.borrow_mut().push(s.clone());" });
                 }
@@ -752,7 +753,7 @@ pub fn custom_run(cfg: &RunCfg) -> i32 {
             "disagreements_checked": comparisons,
             "evaluations": comparisons,
             "distinct_nontrivial": nontrivial.len(),
-            "rule": "Pairs (grammar, lexer) whose token names agree: AG from strata rand/expr/lr1/repo (cycle-free, loop-free tables, random precedence and %avoid_insert), kinds Grmtools and Original(UserAction) (user actions from a fixed template recording production, $span, every $i as Ok/Err lexeme or child string, $lexer and $$; %parse-param absent / a u64 by value / a shared RefCell log every action appends to / a reference behind %parse-generics; with the log, some Grmtools rules have the unit action type so that their actions are visible only in the log; every third action body spans two lines, every other one begins with a string literal holding `//` and `/*`), Original(GenericParseTree), Original(NoAction); settings sampled: the builders' API (the one-call lrpar_config flow with explicit paths and module names; for 1/6 of the pairs the deprecated process_file on both builders; for 1/5 lexer_in_src_dir / grammar_in_src_dir with sources below src/ in a directory one or three levels deep, derived output paths and module names, included through lrlex_mod!/lrpar_mod!; for 1/8 a rule_ids_map with the right names and rotated ids set by hand before lrpar_config, which the parser's own map has to replace), storage type u32 / u16 / u8 of the builders' lexer types (the run-time side uses the same width), yacckind through builder or %grmtools header (for 1/6 of the pairs through the builder while the header names another kind: the builder's wins), recoverer CPCT+/None through builder and/or header, serialisation format, Rust edition, visibility, lexer flags through builder or header, for 1/3 of the pairs a reserved-word rule in the lexer that the grammar does not know and that wins over a token's rule on some inputs; 7 inputs per pair (sentences, near misses, upper-cased words, multi-line skip text, a lexing error). One cargo build of engine/ctbatch runs the real CTLexerBuilder/CTParserBuilder per pair in its build script; its binary lexes and parses every input with the generated modules and with LRNonStreamingLexerDef/RTParserBuilder built from the same source strings (user actions evaluated natively) and compares lexemes, value/tree, errors with repair sets, token_epp, R_*/N_* constants; each module's first parse is also made by 8 barrier-released threads (C15), and the binary is run in three processes (one first-use race per module and process). programs = pairs compiled and run; disagreements_checked = comparisons. Besides the pairs, eight fixed flag probes per batch (one tiny lexer per boolean flag whose lexemes on its probe inputs depend on the flag, built with the flag at its non-default value through the section or the builder, alternating) and 60 (thorough: 80 per batch) lexer-only items: a specification from the lexer generators of C09/C11 (start states with push/pop/replace targets, <..> prefixes, every kind of escape, flags in a %grmtools section, through the builder's flag methods (no section), or both with the builder overriding the section - one third each -, varied rendering) built by CTLexerBuilder with a user-supplied rule_ids_map that leaves 1/6 of the rule names without an id; the generated module's definition (rules: id, name, name span, expression, start states, target; start states with their spans) and its lexemes on 6 inputs sampled from the rules must equal those of LRNonStreamingLexerDef::from_str + set_rule_ids on the same text, and one side refusing what the other accepts is a mismatch. Non-trivial pair: non-default setting or an input with a lexing error, or a lexer-only item; distinct by hash(sources).",
+            "rule": "Pairs (grammar, lexer) whose token names agree: AG from strata rand/expr/lr1/repo (cycle-free, loop-free tables, random precedence and %avoid_insert), kinds Grmtools and Original(UserAction) (user actions from a fixed template recording production, $span, every $i as Ok/Err lexeme or child string, $lexer and $$ (one before and one after all other references); %parse-param absent / a u64 by value / a shared RefCell log every action appends to / a reference behind %parse-generics; with the log, some Grmtools rules have the unit action type so that their actions are visible only in the log; every third action body spans two lines, every other one begins with a string literal holding `//` and `/*`), Original(GenericParseTree), Original(NoAction); settings sampled: the builders' API (the one-call lrpar_config flow with explicit paths and module names; for 1/6 of the pairs the deprecated process_file on both builders; for 1/5 lexer_in_src_dir / grammar_in_src_dir with sources below src/ in a directory one or three levels deep, derived output paths and module names, included through lrlex_mod!/lrpar_mod!; for 1/8 a rule_ids_map with the right names and rotated ids set by hand before lrpar_config, which the parser's own map has to replace), storage type u32 / u16 / u8 of the builders' lexer types (the run-time side uses the same width), yacckind through builder or %grmtools header (for 1/6 of the pairs through the builder while the header names another kind: the builder's wins), recoverer CPCT+/None through builder and/or header, serialisation format, Rust edition, visibility, lexer flags through builder or header, for 1/3 of the pairs a reserved-word rule in the lexer that the grammar does not know and that wins over a token's rule on some inputs; 7 inputs per pair (sentences, near misses, upper-cased words, multi-line skip text, a lexing error). One cargo build of engine/ctbatch runs the real CTLexerBuilder/CTParserBuilder per pair in its build script; its binary lexes and parses every input with the generated modules and with LRNonStreamingLexerDef/RTParserBuilder built from the same source strings (user actions evaluated natively) and compares lexemes, value/tree, errors with repair sets, token_epp, R_*/N_* constants; each module's first parse is also made by 8 barrier-released threads (C15), and the binary is run in three processes (one first-use race per module and process). programs = pairs compiled and run; disagreements_checked = comparisons. Besides the pairs, eight fixed flag probes per batch (one tiny lexer per boolean flag whose lexemes on its probe inputs depend on the flag, built with the flag at its non-default value through the section or the builder, alternating) and 60 (thorough: 80 per batch) lexer-only items: a specification from the lexer generators of C09/C11 (start states with push/pop/replace targets, <..> prefixes, every kind of escape, flags in a %grmtools section, through the builder's flag methods (no section), or both with the builder overriding the section - one third each -, varied rendering) built by CTLexerBuilder with a user-supplied rule_ids_map that leaves 1/6 of the rule names without an id; the generated module's definition (rules: id, name, name span, expression, start states, target; start states with their spans) and its lexemes on 6 inputs sampled from the rules must equal those of LRNonStreamingLexerDef::from_str + set_rule_ids on the same text, and one side refusing what the other accepts is a mismatch. Non-trivial pair: non-default setting or an input with a lexing error, or a lexer-only item; distinct by hash(sources).",
             "samples": samples,
             "classes": classes,
             "replayed": replay_pairs.len(),
